@@ -66,7 +66,7 @@ Apply(st, e) ==
       [] e.op \in {"AddRec1", "IAddRec1"} -> DoAlloc(st, e.rd, ConcatT(TT(st, e.r), RecordT(st.av.recs[1])))
       \* round 5: three or more operands in one call; a small pattern scaled up to n rows; masks / columns that are a cycled pattern
       [] e.op = "ConcatN"   -> DoAlloc(st, e.rd, ConcatManyT([k \in 1..Len(e.ops) |-> IF e.ops[k][1] = "r" THEN TT(st, e.ops[k][2]) ELSE RecordT(e.ops[k][3])]))
-      [] e.op = "NewBig"    -> DoAlloc(st, e.rd, Ok(BigT(Construct(e.seed).t, e.n, e.b)))
+      [] e.op = "NewBig"    -> DoAlloc(st, e.rd, NewBigT(e.seed, e.n, e.b))
       [] e.op = "MaskCyc"   -> DoAlloc(st, e.rd, MaskSeqT(TT(st, e.r), CycleTo(e.pat, NR(TT(st, e.r)))))
       [] e.op = "SetColCyc" -> DoInPlace(st, e.r, SetColT(TT(st, e.r), e.c, CycArg(e.pat, NR(TT(st, e.r)))))
       [] e.op \in {"Copy", "NoFilter"} -> DoAlloc(st, e.rd, Ok(TT(st, e.r)))
